@@ -51,6 +51,7 @@ func freshProcess() {
 	utxo.OneUtxoRec = utxo.OneUtxoRecU
 	utxo.Serialize = utxo.SerializeU
 	chain.AbortNow = false
+	chain.TrustedTxChecker = nil
 	utxo.Memory_Malloc = func(le int) *[]byte {
 		p := make([]byte, le)
 		return &p
